@@ -302,6 +302,8 @@ def actor_attr(c):
         parts.append('name = "%s"' % c["name"])
     if c.get("debut"):
         parts.append("debut")
+    if c.get("show"):
+        parts.append("show")
     if c.get("filter") is not None:
         parts.append(filter_text(c["filter"]))
     return ", ".join(parts)
@@ -317,8 +319,12 @@ def family_attr(c):
         parts.append('name = "%s"' % c["name"])
     if c.get("debut"):
         parts.append("debut")
+    if c.get("show"):
+        parts.append("show")
     for m in c["members"]:
         ps = ['first_name = "%s"' % m["first"]]
+        if m.get("show"):
+            ps.append("show")
         if m.get("name"):
             ps.append('name = "%s"' % m["name"])
         if m.get("filter") is not None:
@@ -477,8 +483,8 @@ def real_method(f):
     r = recv_of(f["self"])
     lrecv = {"RNone": ("LNone",), "RVal": ("LVal",)}.get(r[0], ("LRef", r[1] if len(r) > 1 else False))
     return {"name": f["name"], "vis": vis_of(f["vis"]), "async": f["async"], "recv": lrecv, "params": [" ".join(toks_of(t)) for _, t in f["params"]],
-            "ret": " ".join(toks_of(f["ret"])), "docs": list(f["docs"]), "generics": " ".join(toks_of(f["generics"])), "where": split_preds(f["where"]),
-            "attrs": list(f["attrs"])}
+            "ret": " ".join(toks_of(f["ret"])), "docs": [d for d in f["docs"] if "### Interthread Generated Code" not in d],     # `show` appends the listing of the generated code
+            "generics": " ".join(toks_of(f["generics"])), "where": split_preds(f["where"]), "attrs": list(f["attrs"])}
 
 
 def real_projection(mdl):
